@@ -4,6 +4,7 @@ import (
 	"fmt"
 	"math"
 	"sort"
+	"strings"
 
 	"verif/internal/xdoc"
 	"verif/internal/xgen"
@@ -189,6 +190,9 @@ func c07Matrix(c *Case) {
 			for _, n := range []*xdoc.Node{ns[0], ns[len(ns)/2], ns[len(ns)-1]} {
 				v := n.StringValue()
 				strs[v] = true
+				for _, alt := range altSpellings(v) {
+					strs[alt] = true // equal as numbers, or up to case / surrounding blanks - but different strings
+				}
 				f := xref.StrToNumber(v)
 				if !math.IsNaN(f) && math.Abs(f) < 1e6 {
 					nums[f], nums[f+1], nums[f-1] = true, true, true
@@ -372,4 +376,21 @@ func (c *Case) recordShapeOf(e xref.Expr) {
 	if ce := c.compile(xref.Render(e), func() map[string]interface{} { return map[string]interface{}{} }); ce != nil {
 		c.recordShape(queryShape(ce))
 	}
+}
+
+// altSpellings returns strings that a sloppy comparison would take for v: other spellings of the same number,
+// v in another case, v with blanks around it.
+func altSpellings(v string) []string {
+	if len(v) > 12 {
+		return nil
+	}
+	out := []string{v + " ", " " + v, strings.ToUpper(v), strings.ToLower(v)}
+	if f := xref.StrToNumber(v); !math.IsNaN(f) && !math.IsInf(f, 0) {
+		t := strings.TrimSpace(v)
+		out = append(out, "0"+t, t+".0", "+"+t, xref.NumToString(f), xref.NumToString(f)+".00")
+		if !strings.Contains(t, ".") {
+			out = append(out, t+".")
+		}
+	}
+	return out
 }
